@@ -382,6 +382,17 @@ def run(ctx):
         got = {k: m['ok'][k] for k in ('class', 'recvs', 'stalls')} if 'ok' in m else m
         if got != want:
             mismatches.append({'stream': 'session.handshake', 'op': line[:300], 'model': got, 'impl': want})
+    # "Protocol major versions differ." on the first connection: the audit is repeated once as SSH-1 and ends, whatever the second connection brings
+    from props.C19 import run_versions_differ
+    for extra in ([], ['-2'], ['-1'], ['-j']):
+        for second in ('same', 'pkm', 'silent', 'refuse'):
+            code, out, log = run_versions_differ(extra, second)
+            cov.add(('versions-differ', tuple(extra), second), True, tags=['versions-differ'])
+            inp = {'versions_differ': True, 'args': extra, 'second_connection': second}
+            if 'Traceback' in out or 'RecursionError' in out or code not in (0, 1, 2, 3):
+                fail('internal_error', inp, {'exit': code, 'connections': len(log), 'stdout': out[-300:]}, 'a documented status and no traceback')
+            if len(log) > 2:
+                fail('unbounded_reconnects', inp, {'connections': len(log)}, 'at most one retry (as SSH-1): <= 2 connections')
     # probe-phase misbehaviour: the report of the completed handshake must survive
     for name, kw in probe_fault_servers(ctx):
         kex_only_gex = kw.pop('kex_only_gex', False)
@@ -411,6 +422,12 @@ def run(ctx):
 def replay(obj):
     f = obj.get('failure', obj)
     inp = f['input']
+    if inp.get('versions_differ'):
+        from props.C19 import run_versions_differ
+        code, out, log = run_versions_differ(inp['args'], inp['second_connection'])
+        print('exit', code, 'connections', len(log))
+        print(out[-400:])
+        return 1 if ('Traceback' in out or 'RecursionError' in out or code not in (0, 1, 2, 3) or len(log) > 2) else 0
     if 'events' in inp:
         events = [e if e in ('t', 'e') else bytes.fromhex(e) for e in inp['events']]
         code, out, sock = run_scripted(events)
